@@ -389,15 +389,18 @@ class FileResponse(Response, FileResponseMixin):
         stat_result = self.stat_result
         file_size = stat_result.st_size
 
-        if "HTTP_RANGE" not in environ or (
-            "HTTP_IF_RANGE" in environ
-            and not self.judge_if_range(environ["HTTP_IF_RANGE"], stat_result)
+        # an empty header value means "absent", as in the ASGI response
+        http_range = environ.get("HTTP_RANGE", "")
+        http_if_range = environ.get("HTTP_IF_RANGE", "")
+
+        if http_range == "" or (
+            http_if_range != "" and not self.judge_if_range(http_if_range, stat_result)
         ):
             yield from self.handle_all(send_header_only, file_size, start_response)
             return
 
         try:
-            ranges = self.parse_range(environ["HTTP_RANGE"], file_size)
+            ranges = self.parse_range(http_range, file_size)
         except (MalformedRangeHeader, RangeNotSatisfiable) as exception:
             start_response(
                 StatusStringMapping[exception.status_code],
